@@ -133,107 +133,58 @@ Definition obs_ok (api : Z) (p : list pstep) (r : lres) (st ty : Z) (raw : list 
   | LErr => (st =? 1) || (st =? 2)
   end.
 
-Section Queries.
-  Variable judge : list pstep -> Z -> Z -> list Z -> verdict.
-  (* returns the combined verdict; bad queries are collected (index + expected observation) *)
-  Fixpoint run_queries (n : nat) (idx : Z) (fs : list field) (acc : verdict) (bad : list field) : verdict :=
-    match n with
-    | O => match fs with
-           | [] => match bad with [] => acc | _ => VBad 1 bad end
-           | _ => VBad 99 []
-           end
-    | S n' =>
-      match parse_path fs with
-      | Some (p, FZ st :: FZ ty :: FB raw :: r) =>
-        match judge p st ty raw with
-        | VBad c d => run_queries n' (idx + 1) r acc (bad ++ FZ idx :: FZ c :: d)
-        | v => run_queries n' (idx + 1) r (vworse acc v) bad
-        end
-      | _ => VBad 99 []
-      end
-    end.
-End Queries.
+(* ---- known findings: a deviation from the spec is a KNOWN finding only if it is exactly what the code does
+   with some of the recorded defects unrepaired. [classify rel matches] tries the sets of unrepaired defects
+   among [rel] by increasing size ([] = everything repaired) and returns the first whose as-coded model
+   (ProtoGenericAlg, flags = the others repaired) reproduces the observation. *)
+Fixpoint powerset (l : list Z) : list (list Z) :=
+  match l with
+  | [] => [[]]
+  | x :: r => let ps := powerset r in ps ++ map (cons x) ps
+  end.
+Definition subsets_by_size (l : list Z) : list (list Z) :=
+  let ps := powerset l in
+  flat_map (fun k => filter (fun s => (length s =? k)%nat) ps) (seq 0 (Datatypes.S (length l))).
+Definition fx_of (off : list Z) : fixes :=
+  let on (id : Z) := negb (existsb (Z.eqb id) off) in
+  mk_fixes (on 701) (on 702) (on 703) (on 704) (on 705) (on 706) (on 707) (on 709) (on 710) (on 711).
+Definition classify (rel : list Z) (matches : fixes -> bool) : option (list Z) :=
+  find (fun off => matches (fx_of off)) (subsets_by_size rel).
+Fixpoint zmin (l : list Z) (d : Z) : Z := match l with [] => d | x :: r => Z.min x (zmin r x) end.
+(* verdict for a spec violation *)
+Definition known_or_bad (c : option (list Z)) (bad : verdict) : verdict :=
+  match c with
+  | Some (id :: r) => VKnown (zmin (id :: r) id)
+  | Some [] => match bad with VBad _ d => VBad 6 d | v => v end    (* even the fully repaired model deviates from the spec *)
+  | None => bad
+  end.
 
-(* does the observation equal what getByPath as coded does? *)
+(* does the observation (status, type, raw) equal an as-coded outcome? *)
 Definition obs_matches_alg (g : gout) (st ty : Z) (raw : list Z) : bool :=
   match g with
-  | GFoundA t r => (st =? 0) && (ty =? t) && bytes_eqb raw r
+  | GFoundA t r _ => (st =? 0) && (ty =? t) && bytes_eqb raw r
   | GNotFoundA => st =? 1
   | GErrA => (st =? 1) || (st =? 2)
   | GPanicA => st =? 3
   | GUnmodelled => false
   end.
-
-(* does the path take index 0 of an unpacked list (string / bytes / message elements)? *)
-Fixpoint path_idx0_unpacked (S : schema) (lbl : flabel) (t : ftype) (v : pval) (p : list pstep) {struct p} : bool :=
-  match p with
-  | [] => false
-  | s :: p' =>
-    match lbl, v with
-    | LSingular, VMsg fs =>
-      match t with
-      | TMsg name =>
-        match find_msg S name with
-        | Some md =>
-          match step_field md s with
-          | Some fd => match assoc_z (fd_num fd) fs with
-                       | Some x => path_idx0_unpacked S (fd_label fd) (fd_type fd) x p'
-                       | None => false
-                       end
-          | None => false
-          end
-        | None => false
-        end
-      | _ => false
-      end
-    | LRepeated _, VList _ vs =>
-      match s with
-      | PIndex i =>
-        ((i =? 0) && negb (type_numeric t)) ||
-        match nth_error vs (Z.to_nat i) with Some x => path_idx0_unpacked S LSingular t x p' | None => false end
-      | _ => false
-      end
-    | LMap kk, VMap kvs =>
-      match s with
-      | PStrKey k => match assoc_key (KStr k) kvs with Some x => path_idx0_unpacked S LSingular t x p' | None => false end
-      | PIntKey i => match find (fun kx => key_matches i (fst kx)) kvs with
-                     | Some kx => path_idx0_unpacked S LSingular t (snd kx) p' | None => false end
-      | _ => false
-      end
-    | _, _ => false
-    end
+Definition obs_matches_ares (a : ares) (st ty : Z) (raw : list Z) : bool :=
+  match a with
+  | ANode n => (st =? 0) && (ty =? an_t n) && bytes_eqb raw (an_raw n)
+  | ABroken t => (st =? 3) && (ty =? t)
+  | ANotFound => st =? 1
+  | AErr => (st =? 1) || (st =? 2)
+  | APanic => (st =? 3) && (ty =? 0)
+  | AUnmod => false
+  end.
+(* a child / bulk result: Some (type, raw) | None = absent *)
+Definition obs_matches_child (c : option (Z * list Z)) (st ty : Z) (raw : list Z) : bool :=
+  match c with
+  | Some (t, r) => if t =? 0 then st =? 1                       (* an UNKNOWN node is reported as absent by the harness *)
+                   else (st =? 0) && (ty =? t) && bytes_eqb raw r
+  | None => st =? 1
   end.
 
-Fixpoint is_prefix (a b : list Z) : bool :=
-  match a, b with
-  | [], _ => true
-  | x :: a', y :: b' => (x =? y) && is_prefix a' b'
-  | _, _ => false
-  end.
-
-Definition is_index_step (s : option pstep) : bool := match s with Some (PIndex _) => true | _ => false end.
-
-(* known findings of getByPath (APIs 1-3): selector on the case; the caller has already established
-   that the observation equals the as-coded model's output *)
-Definition gbp_finding (sc : schema) (root : list Z) (m : pmsg) (p : list pstep) (r : lres) (raw : list Z) : option Z :=
-  let oob := match r with LNotFound true => is_index_step (last_step p) | _ => false end in
-  let absent_key := match r, last_step p with
-                    | LNotFound _, Some (PStrKey _) | LNotFound _, Some (PIntKey _) => true
-                    | _, _ => false end in
-  if oob then Some 701
-  else if absent_key then Some 704      (* the scan for an absent key runs past the end of the enclosing message *)
-  else
-    if path_idx0_unpacked sc LSingular (TMsg root) (VMsg m) p then Some 702
-    else match r with
-         | LFound (LRepeated _) t num v =>
-           if type_numeric t && negb (wt_of_kind (kind_of_type t) =? 0) then Some 703
-           else if negb (type_numeric t) && is_prefix (node_raw (LRepeated false) num v) raw then Some 704
-           else None
-         | LFound (LMap kk) t num v => if is_prefix (node_raw (LMap kk) num v) raw then Some 704 else None
-         | _ => None
-         end.
-
-(* ---- structural selectors for the other APIs *)
 Fixpoint pval_any (f : pval -> bool) (v : pval) {struct v} : bool :=
   f v ||
   match v with
@@ -242,126 +193,152 @@ Fixpoint pval_any (f : pval -> bool) (v : pval) {struct v} : bool :=
   | VMap kvs => existsb (fun kx => pval_any f (snd kx)) kvs
   | _ => false
   end.
-Definition is_float (v : pval) : bool := match v with VScalar k _ => k =? 2 | _ => false end.
-Definition is_packed_fixed (v : pval) : bool :=
-  match v with VList true (VScalar k _ :: _) => negb (wt_of_kind k =? 0) | _ => false end.
 Definition is_oos_map (v : pval) : bool :=
   match v with VMap ((KInt k _, _) :: _) => negb (key_in_subset k) | _ => false end.
-Definition is_empty_msg (v : pval) : bool := match v with VMsg [] => true | _ => false end.
 Definition has_direct (f : pval -> bool) (v : pval) : bool :=
   match v with VMsg fs => existsb (fun nv => f (snd nv)) fs | _ => false end.
 
-(* does f hold at a position the path visits (after at least one step)? *)
-Fixpoint path_visits (f : pval -> bool) (S : schema) (lbl : flabel) (t : ftype) (v : pval) (p : list pstep) {struct p} : bool :=
-  match p with
-  | [] => false
-  | s :: p' =>
-    let k (lbl' : flabel) (t' : ftype) (x : pval) := f x || path_visits f S lbl' t' x p' in
-    match lbl, v with
-    | LSingular, VMsg fs =>
-      match t with
-      | TMsg name =>
-        match find_msg S name with
-        | Some md =>
-          match step_field md s with
-          | Some fd => match assoc_z (fd_num fd) fs with Some x => k (fd_label fd) (fd_type fd) x | None => false end
-          | None => false
-          end
-        | None => false
-        end
-      | _ => false
-      end
-    | LRepeated _, VList _ vs =>
-      match s with
-      | PIndex i => match nth_error vs (Z.to_nat i) with Some x => k LSingular t x | None => false end
-      | _ => false
-      end
-    | LMap kk, VMap kvs =>
-      match s with
-      | PStrKey key => match assoc_key (KStr key) kvs with Some x => k LSingular t x | None => false end
-      | PIntKey i => match find (fun kx => key_matches i (fst kx)) kvs with Some kx => k LSingular t (snd kx) | None => false end
-      | _ => false
-      end
-    | _, _ => false
-    end
-  end.
-
-Definition strict_prefix (a b : list Z) : bool := is_prefix a b && negb (length a =? length b)%nat.
-
-(* the parent of the last step is located correctly by getByPath as coded (prefix path) *)
 Definition parent_of (p : list pstep) : list pstep := removelast p.
-Definition parent_ok (sc : schema) (root : list Z) (m : pmsg) (bs : list Z) (p : list pstep) : option lres :=
+
+(* the parent node the implementation obtained (observed type / raw / Len) is the node the spec designates *)
+Definition parent_node (sc : schema) (root : list Z) (m : pmsg) (bs : list Z) (p : list pstep)
+           (pst pty : Z) (praw : list Z) (psize : Z) : option (anode * pval) :=
+  if negb (pst =? 0) then None else
   match parent_of p with
-  | [] => Some (plookup_root sc root m [])
+  | [] => if (pty =? K_MESSAGE) && bytes_eqb praw bs then Some (root_node root bs, VMsg m) else None
   | pre =>
-    match plookup_root sc root m pre, gbp sc root bs pre with
-    | LFound lbl t num v, GFoundA ty raw =>
-      if (ty =? node_type lbl t) && bytes_eqb raw (node_raw lbl num v) then Some (LFound lbl t num v) else None
-    | _, _ => None
+    match plookup_root sc root m pre with
+    | LFound lbl t num v =>
+      if (pty =? node_type lbl t) && bytes_eqb praw (node_raw lbl num v)
+      then Some (mk_anode pty praw psize false lbl t num, v) else None
+    | _ => None
     end
   end.
 
-Definition judge_702 (sc : schema) (root : list Z) (m : pmsg) (bs : list Z) (api : Z)
-           (p : list pstep) (st ty : Z) (raw : list Z) : verdict :=
+(* extra fields of a query of APIs 5, 6, 9: parent observation, requests, position *)
+Record qextra := mk_qextra { q_pst : Z; q_pty : Z; q_praw : list Z; q_psize : Z; q_reqs : list pstep; q_at : Z }.
+Definition no_extra : qextra := mk_qextra 9 0 [] 0 [] 0.
+
+(* recursive loads of the root for every repair configuration (computed once per case line, API 7) *)
+Definition root_loads (sc : schema) (root : list Z) (bs : list Z) : list (list Z * tres) :=
+  map (fun off => (off, a_load (fx_of off) sc true (root_node root bs))) (subsets_by_size [706; 711]).
+
+Definition judge_702 (sc : schema) (root : list Z) (m : pmsg) (bs : list Z) (api : Z) (loads : list (list Z * tres))
+           (p : list pstep) (st ty : Z) (raw : list Z) (x : qextra) : verdict :=
   if st =? 9 then VSkip else
   let r := plookup_root sc root m p in
-  let isgbp := (api =? 1) || (api =? 2) || (api =? 3) in
-  let alg := if isgbp then gbp sc root bs p else GUnmodelled in
-  let alg_ok := obs_matches_alg alg st ty raw in
   let bad := VBad 2 (exp_fields r) in
   let rootv := VMsg m in
-  if obs_ok api p r st ty raw then
-    (if isgbp && negb alg_ok then VDrift 2 else VOk)       (* spec holds; the as-coded model needs re-alignment *)
-  else if path_out_of_subset sc LSingular (TMsg root) rootv p then VDrift 1
-  else if isgbp then
-    (if alg_ok then match gbp_finding sc root m p r raw with Some id => VKnown id | None => VBad 5 (exp_fields r) end
-     else bad)
+  if (api =? 1) || (api =? 2) || (api =? 3) then
+    (* Value.GetByPath / GetByPathWithAddress *)
+    if obs_ok api p r st ty raw then VOk
+    else if path_out_of_subset sc LSingular (TMsg root) rootv p then VDrift 1
+    else known_or_bad (classify [701; 702; 703; 704; 710]
+                                (fun fx => obs_matches_alg (gbp fx sc root bs p) st ty raw)) bad
   else if api =? 4 then
-    (* single-step APIs: Field / FieldByName / Index / GetByStr / GetByInt *)
-    let oob := match r with LNotFound true => is_index_step (last_step p) | _ => false end in
-    if oob && ((st =? 0) || (st =? 3)) then VKnown 705
-    else if path_visits is_packed_fixed sc LSingular (TMsg root) rootv p then VKnown 703
-    else match r with
-         | LFound (LRepeated q) t num v =>
-           if (st =? 0) && (ty =? T_LIST) && negb (type_numeric t) && strict_prefix (node_raw (LRepeated q) num v) raw then VKnown 704 else bad
-         | LFound (LMap kk) t num v =>
-           if (st =? 0) && (ty =? T_MAP) && strict_prefix (node_raw (LMap kk) num v) raw then VKnown 704 else bad
-         | _ => bad
-         end
+    (* chained Field / FieldByName / Index / GetByStr / GetByInt *)
+    if obs_ok api p r st ty raw then VOk
+    else if path_out_of_subset sc LSingular (TMsg root) rootv p then VDrift 1
+    else known_or_bad (classify [703; 705]
+                                (fun fx => obs_matches_ares (a_chain fx sc (root_node root bs) p) st ty raw)) bad
   else if (api =? 5) || (api =? 9) || (api =? 6) then
-    match parent_ok sc root m bs p with
+    match parent_node sc root m bs p (q_pst x) (q_pty x) (q_praw x) (q_psize x) with
     | None => VSkip                       (* the parent itself is not located correctly: reported under APIs 1-3 *)
-    | Some (LFound plbl pt pnum pv) =>
-      if api =? 6 then
-        (* PathNode.Load(recurse=false) on the parent node *)
-        match plbl, pv, parent_of p with
-        | LSingular, VMsg _, _ :: _ => VKnown 708      (* nested message node: length prefix parsed as a tag *)
+    | Some (pn, pv) =>
+      if obs_ok api p r st ty raw then VOk
+      else if path_out_of_subset sc LSingular (TMsg root) rootv p || has_direct is_oos_map pv || is_oos_map pv then VDrift 1
+      else if api =? 6 then
+        (* PathNode.Load(recurse=false) on the parent node: no repair recorded, the code as it is *)
+        let model := match a_load no_fixes sc false pn with
+                     | TOk kids _ => match last_step p with
+                                     | Some s => match find_kid s kids with
+                                                 | Some (ATree _ t rw _) => obs_matches_child (Some (t, rw)) st ty raw
+                                                 | None => st =? 1
+                                                 end
+                                     | None => false
+                                     end
+                     | TErr => (st =? 1) || (st =? 2)
+                     | TPanic => st =? 3
+                     | TUnmod => false
+                     end in
+        match an_lbl pn, an_t pn =? K_MESSAGE, parent_of p with
+        | LSingular, true, _ :: _ => if model then VKnown 708 else bad     (* nested message node: length prefix parsed as a tag *)
         | _, _, _ => bad
         end
       else
-        (* GetMany *)
-        if has_direct is_packed_fixed pv then VKnown 703        (* the over-read derails the iteration over the parent's fields *)
-        else if (api =? 9) && (match last_step p with Some (PStrKey _) | Some (PIntKey _) => true | _ => false end)
-                && ((st =? 1) || (st =? 2)) then VKnown 707
-        else if has_direct is_oos_map pv then VDrift 1
-        else bad
-    | Some _ => VSkip
+        (* GetMany with the recorded requests; the queried path is request number q_at *)
+        known_or_bad (classify [703; 707]
+          (fun fx => match a_getmany fx sc pn (q_reqs x) with
+                     | MOk l => match nth_error l (Z.to_nat (q_at x)) with
+                                | Some c => obs_matches_child c st ty raw
+                                | None => false
+                                end
+                     | MErr => (st =? 1) || (st =? 2)
+                     | MPanic => st =? 3
+                     | MUnmod => false
+                     end)) bad
     end
   else if api =? 7 then
-    (* PathNode.Load(recurse=true) on the root *)
-    if pval_any is_oos_map rootv then VDrift 1
-    else if existsb (fun nv => pval_any is_empty_msg (snd nv)) m && (st =? 2) then VKnown 706
-    else bad
-  else bad.
+    (* PathNode.Load(recurse=true) on the root, then a walk along the path *)
+    if obs_ok api p r st ty raw then VOk
+    else if pval_any is_oos_map rootv then VDrift 1
+    else known_or_bad
+           (option_map fst
+              (find (fun ol => match snd ol with
+                               | TOk kids _ => obs_matches_child (walk_tree kids p) st ty raw
+                               | TErr => (st =? 1) || (st =? 2)
+                               | TPanic => st =? 3
+                               | TUnmod => false
+                               end) loads)) bad
+  else
+    if obs_ok api p r st ty raw then VOk
+    else if path_out_of_subset sc LSingular (TMsg root) rootv p then VDrift 1
+    else bad.
 
-(* fields: schema, bytes, api, #queries, { path, status, type, raw } *)
+Definition has_extra (api : Z) : bool := (api =? 5) || (api =? 9) || (api =? 6).
+
+Definition parse_extra (fs : list field) : option (qextra * list field) :=
+  match fs with
+  | FZ pst :: FZ pty :: FB praw :: FZ psize :: FZ nreq :: r =>
+    if negb (count_ok nreq) then None else
+    match parse_steps (Z.to_nat nreq) r with
+    | Some (reqs, FZ at_ :: r') => Some (mk_qextra pst pty praw psize reqs at_, r')
+    | _ => None
+    end
+  | _ => None
+  end.
+
+(* returns the combined verdict; bad queries are collected (index + expected observation) *)
+Fixpoint run_queries (judge : list pstep -> Z -> Z -> list Z -> qextra -> verdict) (extra : bool)
+         (n : nat) (idx : Z) (fs : list field) (acc : verdict) (bad : list field) : verdict :=
+  match n with
+  | O => match fs with
+         | [] => match bad with [] => acc | _ => VBad 1 bad end
+         | _ => VBad 99 []
+         end
+  | S n' =>
+    match parse_path fs with
+    | Some (p, FZ st :: FZ ty :: FB raw :: r) =>
+      match (if extra then parse_extra r else Some (no_extra, r)) with
+      | Some (x, r') =>
+        match judge p st ty raw x with
+        | VBad c d => run_queries judge extra n' (idx + 1) r' acc (bad ++ FZ idx :: FZ c :: d)
+        | v => run_queries judge extra n' (idx + 1) r' (vworse acc v) bad
+        end
+      | None => VBad 99 [FZ idx]
+      end
+    | _ => VBad 99 [FZ idx]
+    end
+  end.
+
+(* fields: schema, bytes, api, #queries, { path, status, type, raw [, parent obs, requests, position] } *)
 Definition check_702 (fs : list field) : verdict :=
   match parse_head fs with
   | Some (root, sc, bs, FZ api :: FZ nq :: r) =>
     if negb (count_ok nq) then VBad 99 [] else
     match decode_top sc root bs with
     | None => VSkip
-    | Some m => run_queries (judge_702 sc root m bs api) (Z.to_nat nq) 0 r VOk []
+    | Some m => run_queries (judge_702 sc root m bs api (if api =? 7 then root_loads sc root bs else [])) (has_extra api) (Z.to_nat nq) 0 r VOk []
     end
   | _ => VBad 99 []
   end.
@@ -465,22 +442,37 @@ Definition gval_fields (g : gval) : list field :=
   | GNil => [FZ 0] | GOther => [FZ 99]
   end.
 
-Definition judge_703 (sc : schema) (root : list Z) (m : pmsg) (bs : list Z) (p : list pstep) (cast st : Z) (got : option gval) : verdict :=
+Definition ires_matches (i : ires) (st : Z) (got : option gval) : bool :=
+  match i with
+  | IOk g => match got with Some g' => (st =? 0) && gval_eqv g g' | None => false end
+  | IErr => (st =? 1) || (st =? 2)
+  | IPanic => st =? 3
+  | IUnmod => false
+  end.
+
+(* nty / nraw: type and bytes of the node the cast was applied to (the harness obtains it with GetByPath) *)
+Definition judge_703 (sc : schema) (root : list Z) (m : pmsg) (bs : list Z) (p : list pstep)
+           (nty : Z) (nraw : list Z) (cast st : Z) (got : option gval) : verdict :=
   match plookup_root sc root m p with
   | LFound lbl t num v =>
-    (* the value is obtained with GetByPath: when that lookup itself deviates it is reported by 702 *)
-    if negb (is_nil p) && negb (obs_matches_alg (gbp sc root bs p) 0 (node_type lbl t) (node_raw lbl num v)) then VSkip else
+    let isroot := is_nil p in
+    let node_ok := if isroot then (nty =? K_MESSAGE) && bytes_eqb nraw bs
+                   else (nty =? node_type lbl t) && bytes_eqb nraw (node_raw lbl num v) in
+    (* when the lookup itself deviates it is reported by 702 *)
+    if negb node_ok then VSkip else
     let exp := if cast =? 8 then Some (to_gval v) else cast_expected cast v in
     match exp with
     | None => VSkip
     | Some e =>
       let ok := match got with Some g => (st =? 0) && gval_eqv e g | None => false end in
+      let bad := VBad (match got with Some _ => 3 | None => 4 end) (FZ st :: gval_fields e) in
       if ok then VOk
       else if path_out_of_subset sc LSingular (TMsg root) (VMsg m) p || pval_any is_oos_map v then VDrift 1
-      else if (cast =? 8) && pval_any is_float v && negb (st =? 0) && negb (st =? 3) then VKnown 709   (* Interface() has no FLOAT case *)
-      else if (cast =? 8) && pval_any is_packed_fixed v && negb (is_packed_fixed v)
-           then VKnown 703                                                     (* SkipAllElements inside Interface() of a message *)
-      else VBad (match got with Some _ => 3 | None => 4 end) (FZ st :: gval_fields e)
+      else if cast =? 8 then
+        let nd := mk_anode nty nraw 0 isroot lbl t num in
+        known_or_bad (classify [703; 709]
+                               (fun fx => ires_matches (a_interface (S (length nraw)) fx sc nd) st got)) bad
+      else bad
     end
   | _ => VSkip
   end.
@@ -494,14 +486,14 @@ Fixpoint run_casts (sc : schema) (root : list Z) (m : pmsg) (bs : list Z) (n : n
          end
   | S n' =>
     match parse_path fs with
-    | Some (p, FZ cast :: FZ st :: r) =>
+    | Some (p, FZ nty :: FB nraw :: FZ cast :: FZ st :: r) =>
       let parsed :=
         if negb (st =? 0) then match r with FZ 0 :: r' => Some (None, r') | _ => None end
         else if cast =? 8 then match parse_gval (S (length r)) r with Some (g, r') => Some (Some g, r') | None => None end
         else match parse_cast_value cast r with Some (g, r') => Some (Some g, r') | None => None end in
       match parsed with
       | Some (got, r') =>
-        match judge_703 sc root m bs p cast st got with
+        match judge_703 sc root m bs p nty nraw cast st got with
         | VBad c d => run_casts sc root m bs n' (idx + 1) r' acc (bad ++ FZ idx :: FZ c :: d)
         | v => run_casts sc root m bs n' (idx + 1) r' (vworse acc v) bad
         end
